@@ -104,25 +104,27 @@ func intersect(a, b factSet) factSet {
 // ---------------------------------------------------------------------------
 
 type Engine struct {
-	w         *World
-	fx        map[*ssa.Function]*fnCtx
-	okSums    map[sumKey]*predSummary
-	okBusy    map[sumKey]bool
-	sums      map[*ssa.Function]*predSummary
-	sumBusy   map[*ssa.Function]bool
-	singleSt  map[*ssa.Alloc]int // number of stores to a local cell (including in closures)
-	accCache  map[*ssa.Function][]accessorCase
-	nnField   map[*types.Var]bool
-	errSums   map[*ssa.Function][]Fact
-	lockCache map[*ssa.Function]*lockInfo
-	sites     map[*ssa.Function][]ssa.CallInstruction
-	escaped   map[*ssa.Function]bool
-	entryOn   map[*ssa.Function]factSet
-	cellVers  map[*ssa.Alloc]*cellVersions
-	nnSucc    map[*ssa.Function][]int
-	ge0Depth  int
-	condBusy  map[*ssa.Phi]bool
-	keyDepth  int
+	w            *World
+	fx           map[*ssa.Function]*fnCtx
+	okSums       map[sumKey]*predSummary
+	retFacts     map[*ssa.Function][]Fact
+	followParams bool
+	okBusy       map[sumKey]bool
+	sums         map[*ssa.Function]*predSummary
+	sumBusy      map[*ssa.Function]bool
+	singleSt     map[*ssa.Alloc]int // number of stores to a local cell (including in closures)
+	accCache     map[*ssa.Function][]accessorCase
+	nnField      map[*types.Var]bool
+	errSums      map[*ssa.Function][]Fact
+	lockCache    map[*ssa.Function]*lockInfo
+	sites        map[*ssa.Function][]ssa.CallInstruction
+	escaped      map[*ssa.Function]bool
+	entryOn      map[*ssa.Function]factSet
+	cellVers     map[*ssa.Alloc]*cellVersions
+	nnSucc       map[*ssa.Function][]int
+	ge0Depth     int
+	condBusy     map[*ssa.Phi]bool
+	keyDepth     int
 }
 
 type fnCtx struct {
@@ -1989,4 +1991,111 @@ func (e *Engine) nonNilOnSuccess(fn *ssa.Function) []int {
 	}
 	e.nnSucc[fn] = out
 	return out
+}
+
+// returnFacts: what is known about the parameters of fn whenever it returns normally (a function that panics
+// unless its arguments satisfy a condition establishes that condition for its caller).
+func (e *Engine) returnFacts(fn *ssa.Function) []Fact {
+	if e.retFacts == nil {
+		e.retFacts = map[*ssa.Function][]Fact{}
+	}
+	if fs, ok := e.retFacts[fn]; ok {
+		return fs
+	}
+	e.retFacts[fn] = nil
+	if fn.Blocks == nil || !strings.HasPrefix(fnPkgPath(fn), modPath) {
+		return nil
+	}
+	var acc factSet
+	for _, b := range fn.Blocks {
+		if len(b.Instrs) == 0 || b == fn.Recover {
+			continue
+		}
+		if _, ok := b.Instrs[len(b.Instrs)-1].(*ssa.Return); !ok {
+			continue
+		}
+		hold := e.holding(b)
+		if acc == nil {
+			acc = factSet{}
+			acc.add(hold.list()...)
+		} else {
+			acc = intersect(acc, hold)
+		}
+	}
+	var out []Fact
+	for _, f := range acc.list() {
+		if e.paramRooted(f, fn) {
+			out = append(out, f)
+		}
+	}
+	e.retFacts[fn] = out
+	return out
+}
+
+// substLinFact: like substFact, but an integer parameter is replaced by the linear form of its argument
+// (len(x), y-1), adjusting the constant of a difference constraint.
+func (e *Engine) substLinFact(f Fact, callee *ssa.Function, args []ssa.Value) (Fact, bool) {
+	if f.Kind != "le" {
+		return e.substFact(f, callee, args)
+	}
+	st := func(t Term) (Term, int64, bool) {
+		if t.Kind == 0 {
+			return t, 0, true
+		}
+		for i, p := range callee.Params {
+			if t.K.Root == ssa.Value(p) && i < len(args) {
+				if t.Kind == 2 && t.K.Path == "" {
+					return e.linOf(args[i])
+				}
+				nk := e.keyOf(args[i])
+				nk.Path += t.K.Path
+				return Term{Kind: t.Kind, K: nk}, 0, true
+			}
+		}
+		return t, 0, false
+	}
+	a, oa, ok1 := st(f.A)
+	b, ob, ok2 := st(f.B)
+	if !ok1 || !ok2 {
+		return f, false
+	}
+	// (a+oa) - (b+ob) <= C
+	return Fact{Kind: "le", A: a, B: b, C: f.C - oa + ob}, true
+}
+
+// holdingAt: the facts that hold just before the instruction: those of its block, and what the functions of the
+// module called earlier in the block (or in dominating blocks) establish by returning normally.
+func (e *Engine) holdingAt(in ssa.Instruction) factSet {
+	b := in.Block()
+	fs := factSet{}
+	fs.add(e.holding(b).list()...)
+	add := func(c *ssa.Call) {
+		callee := c.Call.StaticCallee()
+		if callee == nil || len(callee.Blocks) == 0 {
+			return
+		}
+		for _, f := range e.returnFacts(callee) {
+			if g, ok := e.substLinFact(f, callee, c.Call.Args); ok {
+				fs.add(g)
+			}
+		}
+	}
+	for _, x := range b.Instrs {
+		if x == in {
+			break
+		}
+		if c, ok := x.(*ssa.Call); ok {
+			add(c)
+		}
+	}
+	for _, d := range b.Parent().Blocks {
+		if d != b && d.Dominates(b) {
+			for _, x := range d.Instrs {
+				if c, ok := x.(*ssa.Call); ok {
+					add(c)
+				}
+			}
+		}
+	}
+	return fs
 }
